@@ -388,6 +388,192 @@ class Flow:
                     self.bad("conf-route-differs-from-option-route", "phonopy-load --config: thermal_properties.yaml differs from the one by options", argv=["phonopy_params.yaml", "--config", "load.conf"])
         self.run.cov["oracle"]["workflow comparisons: " + self.name] = self.nchecks
 
+    # ---- further modes: outputs of the command against the library writing the same file
+    def cmp_tree(self, what, a, b, tol, argv, path=""):
+        """parsed yaml / nested lists: numbers within tol (numerically zero frequencies are noise), everything else equal"""
+        if isinstance(a, dict) and isinstance(b, dict):
+            if sorted(a) != sorted(b):
+                self.bad("output-differs-from-library", "%s%s: keys %s (command) vs %s (library)" % (what, path, sorted(a), sorted(b)), argv=argv)
+                return False
+            return all([self.cmp_tree(what, a[k], b[k], tol, argv, path + "/" + str(k)) for k in a])
+        if isinstance(a, (list, tuple)) and isinstance(b, (list, tuple)):
+            if len(a) != len(b):
+                self.bad("output-differs-from-library", "%s%s: %d entries (command) vs %d (library)" % (what, path, len(a), len(b)), argv=argv)
+                return False
+            return all([self.cmp_tree(what, x, y, tol, argv, path + "/%d" % i) for i, (x, y) in enumerate(zip(a, b))])
+        if isinstance(a, (int, float)) and isinstance(b, (int, float)) and not isinstance(a, bool):
+            if abs(a - b) <= tol or (abs(a) < 1e-4 and abs(b) < 1e-4 and path.endswith("frequency")):
+                return True
+            self.bad("output-differs-from-library", "%s%s: %r (command) vs %r (library)" % (what, path, a, b), argv=argv)
+            return False
+        if a != b:
+            self.bad("output-differs-from-library", "%s%s: %r (command) vs %r (library)" % (what, path, a, b), argv=argv)
+            return False
+        return True
+
+    def yaml_vs_api(self, fname, argv, write, tol=2e-7):
+        """`fname` written by the command in the cwd against the same file written by the library (`write()`) in ./api"""
+        self.nchecks += 1
+        self.run.count("workflow comparisons", section="oracle")
+        os.makedirs("api", exist_ok=True)
+        os.chdir("api")
+        try:
+            for f in os.listdir("."):
+                os.remove(f)
+            with contextlib.redirect_stdout(io.StringIO()):
+                write()
+            lib = _yaml(fname)
+        finally:
+            os.chdir(self.dir)
+        return self.cmp_tree(fname, _yaml(fname), lib, tol, argv)
+
+    def go_extra(self, rng, thorough, full):
+        """band labels, group velocities, thermal displacements (matrices), moments, irreps, QPOINTS file, --writedm,
+        hdf5 outputs, phonopy vs phonopy-load on the same yaml (after `go`: FORCE_SETS and phonopy_params.yaml exist)"""
+        from phonopy.file_IO import parse_QPOINTS
+        from phonopy.phonon.band_structure import get_band_qpoints
+
+        os.chdir(self.dir)
+        dimv = [str(x) for x in self.dim]
+        base = ["--dim"] + dimv + ["-c", "POSCAR"]
+        mesh = rng.choice([[3, 3, 3], [2, 2, 2], [4, 3, 2]])
+        meshv = [str(x) for x in mesh]
+        pa = self.api_with_forces()
+        natom = len(pa.primitive)
+
+        # ---- band with labels, points, group velocities
+        path = "0 0 0 1/2 0 0 1/2 1/2 0, 0 0 0 1/2 1/2 1/2"
+        labels = ["G", "X", "M", "G", "R"]
+        npts = rng.choice([4, 7])
+        argv = base + ["--band"] + path.split() + ["--band-points", str(npts), "--band-labels"] + labels + ["--gv"]
+        if self.cmd("phonopy", argv, must=["band.yaml"]) is not None:
+            paths = [np.array([U.fracval(x) for x in sec.split()]).reshape(-1, 3) for sec in path.split(",")]
+            conn = []
+            for p in paths:
+                conn += [True] * (len(p) - 2) + [False]
+            pa.run_band_structure(get_band_qpoints(paths, npoints=npts), with_group_velocities=True, path_connections=conn, labels=labels)
+            if self.yaml_vs_api("band.yaml", argv, lambda: pa.write_yaml_band_structure()):
+                y = _yaml("band.yaml")
+                self.nchecks += 1
+                if y.get("labels") != [["G", "X"], ["X", "M"], ["G", "R"]] or "group_velocity" not in y["phonon"][0]["band"][0]:
+                    self.bad("output-differs-from-library", "band.yaml lacks the labels / group velocities that were asked for: labels %r" % (y.get("labels"),), argv=argv)
+        # ---- group velocities on the mesh
+        argv = base + ["--mesh"] + meshv + ["--gv"]
+        if self.cmd("phonopy", argv, must=["mesh.yaml"]) is not None:
+            pa.run_mesh(mesh, with_group_velocities=True)
+            d = pa.get_mesh_dict()
+            y = _yaml("mesh.yaml")
+            self.close("mesh.yaml group velocities", [[b["group_velocity"] for b in p["band"]] for p in y["phonon"]], d["group_velocities"], 2e-7, argv)
+            self.close_freq("mesh.yaml frequencies (--gv)", [[b["frequency"] for b in p["band"]] for p in y["phonon"]], d["frequencies"], 2e-10, argv)
+        # ---- QPOINTS file and --writedm
+        with open("QPOINTS", "w") as f:
+            f.write("3\n0 0 0\n1/2 1/3 0\n0.1 0.2 0.3\n")
+        argv = base + ["--read-qpoints", "--writedm"]
+        if self.cmd("phonopy", argv, must=["qpoints.yaml"]) is not None:
+            pa.run_qpoints(parse_QPOINTS(), with_dynamical_matrices=True)
+            self.yaml_vs_api("qpoints.yaml", argv, lambda: pa.write_yaml_qpoints_phonon(), tol=2e-10)
+            saved = open("qpoints.yaml").read()
+            U.write_conf("rq.conf", ["DIM = " + " ".join(dimv), "QPOINTS = .TRUE.", "WRITEDM = .TRUE."])
+            if self.cmd("phonopy", ["rq.conf", "-c", "POSCAR"], must=["qpoints.yaml"]) is not None:
+                self.nchecks += 1
+                if open("qpoints.yaml").read() != saved:
+                    self.bad("conf-route-differs-from-option-route", "qpoints.yaml by QPOINTS = .TRUE. / WRITEDM differs from --read-qpoints --writedm", argv=["rq.conf", "-c", "POSCAR"])
+        # ---- phonopy and phonopy-load on the same phonopy_params.yaml
+        argv_p = ["phonopy_params.yaml", "--mesh"] + meshv
+        argv_l = ["phonopy_params.yaml", "--fc-calc", "traditional", "--no-fc-symmetry", "--mesh"] + meshv
+        if self.cmd("phonopy", argv_p, must=["mesh.yaml"]) is not None:
+            one = open("mesh.yaml").read()
+            if self.cmd("load", argv_l, must=["mesh.yaml"]) is not None:
+                self.nchecks += 1
+                self.run.count("workflow comparisons", section="oracle")
+                if open("mesh.yaml").read() != one:
+                    self.cmp_tree("mesh.yaml (phonopy-load vs phonopy on the same phonopy_params.yaml)", _yaml("mesh.yaml"), __import__("yaml").safe_load(one), 2e-10, argv_l)
+        if not full:
+            return
+        # ---- thermal displacements and displacement matrices
+        targs = ["--tmax", "300", "--tstep", "100"]
+        argv = base + ["--mesh"] + meshv + ["--td"] + targs
+        if self.cmd("phonopy", argv, must=["thermal_displacements.yaml"]) is not None:
+            pa.init_mesh(mesh, with_eigenvectors=True, is_mesh_symmetry=False, use_iter_mesh=True)
+            pa.run_thermal_displacements(t_min=0, t_max=300, t_step=100)
+            self.yaml_vs_api("thermal_displacements.yaml", argv, lambda: pa.write_yaml_thermal_displacements())
+        tcif = rng.choice([None, "300"])
+        argv = base + ["--mesh"] + meshv + (["--tdm-cif", tcif] if tcif else ["--tdm"] + targs)
+        if self.cmd("phonopy", argv, must=["thermal_displacement_matrices.yaml"]) is not None:
+            pa.init_mesh(mesh, with_eigenvectors=True, is_mesh_symmetry=False, use_iter_mesh=True)
+            if tcif:
+                pa.run_thermal_displacement_matrices(temperatures=[float(tcif)])
+            else:
+                pa.run_thermal_displacement_matrices(t_min=0, t_max=300, t_step=100)
+            self.yaml_vs_api("thermal_displacement_matrices.yaml", argv, lambda: pa.write_yaml_thermal_displacement_matrices())
+        # ---- moments (printed only)
+        order = rng.choice([1, 2])
+        argv = base + ["--mesh"] + meshv + ["--moment", "--moment-order", str(order)]
+        out = self.cmd("phonopy", argv)
+        if out is not None:
+            pa.run_mesh(mesh, with_eigenvectors=True, is_mesh_symmetry=False)
+            pa.run_moment(order=order, is_projection=False)
+            tot = pa.get_moment()
+            pa.run_moment(order=order, is_projection=True)
+            proj = list(pa.get_moment())
+            row = [ln for ln in out.split("\n") if ln.strip().startswith("%d |" % order)]
+            self.nchecks += 1
+            if len(row) != 1:
+                self.bad("output-differs-from-library", "--moment --moment-order %d prints no row for that order" % order, argv=argv)
+            else:
+                nums = [float(x) for x in row[0].replace("|", " ").split()[1:]]
+                self.close("moments printed by --moment", nums, [tot] + proj, 2e-5, argv)
+        # ---- irreducible representations at Gamma and at a zone-boundary point
+        for qi in (["0", "0", "0"], ["1/2", "0", "0"]) if getattr(self, "cen", "P") == "P" else ():  # irreps need a primitive unit cell
+            argv = base + ["--irreps"] + qi
+            if self.cmd("phonopy", argv, must=["irreps.yaml"]) is not None:
+                with contextlib.redirect_stdout(io.StringIO()):
+                    # the command passes degeneracy_tolerance=settings.irreps_tolerance (None -> 1e-5 inside IrReps);
+                    # the default of Phonopy.set_irreps is 1e-4
+                    ok = pa.set_irreps([U.fracval(x) for x in qi], degeneracy_tolerance=None)
+                if ok:
+                    self.yaml_vs_api("irreps.yaml", argv, lambda: pa.write_yaml_irreps(False), tol=2e-6)
+        # ---- hdf5 outputs
+        try:
+            import h5py
+        except ImportError:
+            self.run.cov["oracle"]["hdf5 outputs"] = "not covered: h5py is not available"
+            return
+        for opt in (["--hdf5"], ["--mesh-format", "hdf5"]):
+            if os.path.exists("mesh.hdf5"):
+                os.remove("mesh.hdf5")
+            argv = base + ["--mesh"] + meshv + opt
+            if self.cmd("phonopy", argv, must=["mesh.hdf5"]) is not None:
+                pa.run_mesh(mesh)
+                d = pa.get_mesh_dict()
+                with h5py.File("mesh.hdf5", "r") as h:
+                    self.close_freq("mesh.hdf5 frequency", h["frequency"][:], d["frequencies"], 1e-12, argv)
+                    self.close("mesh.hdf5 weight", h["weight"][:], d["weights"], 0, argv)
+                    self.close("mesh.hdf5 qpoint", h["qpoint"][:], d["qpoints"], 1e-14, argv)
+        argv = base + ["--band"] + path.split() + ["--band-points", str(npts), "--hdf5"]
+        if self.cmd("phonopy", argv, must=["band.hdf5"]) is not None:
+            paths = [np.array([U.fracval(x) for x in sec.split()]).reshape(-1, 3) for sec in path.split(",")]
+            pa.run_band_structure(get_band_qpoints(paths, npoints=npts))
+            d = pa.get_band_structure_dict()
+            with h5py.File("band.hdf5", "r") as h:
+                self.close_freq("band.hdf5 frequency", h["frequency"][:], np.array(d["frequencies"]), 1e-12, argv)
+                self.close("band.hdf5 distance", h["distance"][:], np.array(d["distances"]), 1e-12, argv)
+        argv = base + ["--qpoints", "0.1", "0.2", "0.3", "1/2", "0", "0", "--hdf5"]
+        if self.cmd("phonopy", argv, must=["qpoints.hdf5"]) is not None:
+            pa.run_qpoints([[0.1, 0.2, 0.3], [0.5, 0, 0]])
+            with h5py.File("qpoints.hdf5", "r") as h:
+                self.close_freq("qpoints.hdf5 frequency", h["frequency"][:], pa.get_qpoints_dict()["frequencies"], 1e-12, argv)
+        argv = base + ["--writefc", "--hdf5"]
+        if self.cmd("phonopy", argv, must=["force_constants.hdf5"]) is not None:
+            with h5py.File("force_constants.hdf5", "r") as h:
+                self.close("force_constants.hdf5", h["force_constants"][:], pa.force_constants, 1e-14, argv)
+            argv = base + ["--readfc", "--readfc-format", "hdf5", "--qpoints", "0.1", "0.2", "0.3"]
+            if self.cmd("phonopy", argv, must=["qpoints.yaml"]) is not None:
+                pa.run_qpoints([[0.1, 0.2, 0.3]])
+                y = _yaml("qpoints.yaml")
+                self.close_freq("qpoints.yaml frequencies (--readfc-format hdf5)", [[b["frequency"] for b in p["band"]] for p in y["phonon"]], pa.get_qpoints_dict()["frequencies"], 2e-10, argv)
+        self.run.cov["oracle"]["workflow comparisons: " + self.name] = self.nchecks
+
     # ---- file comparisons
     def cmp_mesh(self, path, ph, argv):
         y = _yaml(path)
